@@ -31,21 +31,6 @@ theorem liftGlyphs_ok (gl : List SGlyph) (h : gl.all (fun e => !e.2.isEmpty) = t
   have := List.all_eq_true.mp h x hx
   simpa using this
 
-theorem liftGlyphs_emptyName (gl : List SGlyph) (h : gl.all (fun e => e.1 != "") = true) :
-    glLookup (liftGlyphs gl) [] = none := by
-  unfold glLookup
-  cases hf : (liftGlyphs gl).find? (fun e => e.1 == []) with
-  | none => rfl
-  | some e =>
-    have hm := List.mem_of_find?_eq_some hf
-    have hp := List.find?_some hf
-    simp only [liftGlyphs, List.mem_map] at hm
-    obtain ⟨x, hx, rfl⟩ := hm
-    have hne := List.all_eq_true.mp h x hx
-    have : x.1.toList = [] := by simpa using hp
-    rw [String.toList_eq_nil_iff] at this
-    simp [this] at hne
-
 /-- Row `r` sits at position `(k, j)` of the chunked glyph list and its name has no period / underscore. -/
 def rowCert (chunks : List (List SGlyph)) (r : SRow) (i : Nat × Nat) : Bool :=
   match chunks[i.1]? with
@@ -90,13 +75,11 @@ theorem row_listed (chunks : List (List SGlyph)) (enc : List SRow) (idx : List (
       have := glLookup_isSome_of_mem hmem'
       simpa [hc.1] using this
 
-/-! ### the three kernel computations on the regenerated tables -/
+/-! ### the two kernel computations on the regenerated tables -/
 
 set_option maxRecDepth 100000
 
 theorem glyphList_values_nonempty : glyphList.all (fun e => !e.2.isEmpty) = true := by decide +kernel
-
-theorem glyphList_names_nonempty : glyphList.all (fun e => e.1 != "") = true := by decide +kernel
 
 theorem rows_cert :
     (ENCODING.zip ENCODING_GLYPH_INDEX).all (fun p => rowCert glyphList_chunks p.1 p.2) = true ∧
@@ -106,9 +89,6 @@ theorem rows_cert :
 
 /-- No glyph-list entry has an empty value. -/
 theorem glyphs_ok : GlyphListOK glyphs := liftGlyphs_ok glyphList glyphList_values_nonempty
-
-/-- The empty string is not a glyph name. -/
-theorem glyphs_emptyName : glLookup glyphs [] = none := liftGlyphs_emptyName glyphList glyphList_names_nonempty
 
 theorem rows_listed (r : EncRow) (hr : r ∈ rows) :
     plainName r.1 = true ∧ (glLookup glyphs r.1).isSome = true :=
